@@ -2,6 +2,7 @@ package core
 
 import (
 	"encoding/json"
+	"time"
 )
 
 // Script is explicit, JSON-serialisable data describing one simulated run completely:
@@ -44,13 +45,18 @@ type Meta struct {
 
 // Shrink greedily minimises s while exec reports a violation with the same signature.
 // Every candidate is executed by a fresh call of p.Execute. budget bounds executions.
+//
+// Minimisation is also bounded by wall-clock time (the one place this package reads a
+// clock): how far a script gets minimised never affects a verdict, and whatever script
+// is current when time runs out still fails with the same signature and replays exactly.
 func Shrink(p Prop, s Script, sig string, budget int) (Script, int) {
 	execs := 0
 	cur := s
+	deadline := time.Now().Add(ShrinkTime)
 	for {
 		progressed := false
 		for _, c := range p.Shrinks(cur) {
-			if execs >= budget {
+			if execs >= budget || time.Now().After(deadline) {
 				return cur, execs
 			}
 			// Round-trip through JSON so that the candidate is exactly what a replay
@@ -76,6 +82,9 @@ func Shrink(p Prop, s Script, sig string, budget int) (Script, int) {
 		}
 	}
 }
+
+// ShrinkTime bounds one minimisation.
+var ShrinkTime = 4 * time.Minute
 
 var registry = map[string]Prop{}
 
